@@ -151,7 +151,7 @@ def run(ck: Check) -> int:
                     # entries (different names in the same directory), not one entry twice
                     same_key = [x for x in res if kf(x) == kf(dup)]
                     if len(set(same_key)) == len(same_key) and \
-                            all(os.path.lexists(os.path.join(t.root, x)) for x in same_key):
+                            all(os.path.lexists(os.path.join(t.root, x.rstrip('/') or x)) for x in same_key):    # (`f/` for a regular file f is KF-D17's spelling of the entry f)
                         kid = 'KF-D23'
                         stats['KF-D23 seen'] = stats.get('KF-D23 seen', 0) + 1
                 f = Failing(f'{dup!r} returned twice without NOUNIQUE', c.to_json(G, t), 'no key twice', res[:12],
